@@ -20,17 +20,23 @@ def make_frame(rng, target, n=None, ties=False):
          'qconst': np.full(n, 2.0), 'qnan': np.where(np.array([rng.random() for _ in range(n)]) < 0.3, np.nan, z2 + noise(0.2))}
     z4 = np.array([rng.gauss(0, 1) for _ in range(n)])
     Q['qchain_b'] = 0.75 * Q['qa'] + z4 + noise(0.1); Q['qchain_c'] = z4 + noise(0.1)          # qa ~ qchain_b ~ qchain_c, but qa and qchain_c unrelated
+    # missing values on OTHER rows than qnan (pairwise-complete correlations differ from correlations of separately ranked columns), and a feature whose observed
+    # values are concentrated on one value but which is mostly missing (its mode is frequent among the observed values only)
+    Q['qnan2'] = np.where(np.array([rng.random() for _ in range(n)]) < 0.35, np.nan, z2 + noise(0.4))
+    Q['qmodenan'] = np.where(np.array([rng.random() for _ in range(n)]) < 0.6, np.nan, np.where(np.array([rng.random() for _ in range(n)]) < 0.9, 1.0, z1 + 3))
     X = pd.DataFrame({k: np.round(v, 4) for k, v in Q.items()})
     if ties: X['qa_x2'] = X['qa'] * 2.0                                                          # exact positive rescaling: exactly tied with qa on every rank-based measure
     def cat(v, k, names):
         r = pd.qcut(pd.Series(v).rank(method='first'), k, labels=False); return pd.Series([names[int(i)] for i in r], dtype=object)
     X['ca'] = cat(z1 + noise(0.4), 3, ['m', 'a', 'z']); X['ca_dup'] = cat(z1 + noise(0.1), 3, ['u', 'v', 'w']); X['cb'] = cat(z2 + noise(0.6), 4, ['p', 'q', 'r', 's'])
     X['cnoise'] = cat(z3, 3, ['x1', 'x2', 'x3']); X['cconst'] = pd.Series(['only'] * n, dtype=object)
+    # two-category features (2x2 tables against a binary target or against each other: scipy applies Yates' continuity correction there)
+    X['cbin_a'] = pd.Series(np.where(z1 + noise(0.5) > 0, 'yes', 'no'), dtype=object); X['cbin_b'] = pd.Series(np.where(z1 + noise(0.9) > 0.3, 'up', 'down'), dtype=object); X['cbin_c'] = pd.Series(np.where(z2 + noise(0.5) > -0.2, 'in', 'out'), dtype=object)
     cz = cat(np.array([rng.gauss(0, 1) for _ in range(n)]), 3, ['g', 'h', 'i'])
     X['cchain_b'] = X['ca'] + '|' + cz; X['cchain_c'] = cz                                        # ca ~ cchain_b ~ cchain_c, but ca and cchain_c unrelated
     cn = cat(z2 + noise(0.3), 3, ['k1', 'k2', 'k3']); X['cnan_full'] = cn.map(lambda v: 'full_' + v)                 # the same categories without missing values (fully redundant with cnan)
     cn = cn.copy(); cn[np.array([rng.random() for _ in range(n)]) < 0.25] = np.nan; X['cnan'] = cn
-    quant = ['qa', 'qa_dup', 'qa_neg', 'qb', 'qnoise', 'qhalf', 'qconst', 'qnan', 'qchain_b', 'qchain_c']; qual = ['ca', 'ca_dup', 'cb', 'cnoise', 'cconst', 'cnan', 'cnan_full', 'cchain_b', 'cchain_c']
+    quant = ['qa', 'qa_dup', 'qa_neg', 'qb', 'qnoise', 'qhalf', 'qconst', 'qnan', 'qchain_b', 'qchain_c', 'qnan2', 'qmodenan']; qual = ['ca', 'ca_dup', 'cb', 'cnoise', 'cconst', 'cnan', 'cnan_full', 'cchain_b', 'cchain_c', 'cbin_a', 'cbin_b', 'cbin_c']
     if ties:
         X['ca_ren'] = X['ca'].map(lambda v: 'ren_' + v); quant.append('qa_x2'); qual.append('ca_ren')
     return X, y, quant, qual
@@ -96,7 +102,7 @@ def one(arg):
     kind = rng.choice(['ClassificationSelector', 'ClassificationSelector', 'RegressionSelector'])
     target = rng.choice(['binary', 'multiclass']) if kind == 'ClassificationSelector' else 'continuous'
     X, y, quant, qual = make_frame(rng, target, ties=(prop == 'C15' and seed % 2 == 0))
-    n_best = rng.choice([1, 2, 3, 5]); tc = rng.choice([1, 0.9, 0.7, 0.5])
+    n_best = rng.choice([1, 2, 3, 5]); tc = rng.choice([1, 0.9, 0.7, 0.5, round(rng.uniform(0.3, 0.95), 2), round(rng.uniform(0.3, 0.95), 2)])
     lit = dict(selector=kind, target=target, n_best=n_best, thresh_corr=tc, seed=seed, default_measures=True)
     def rec(clause, ok, msg, extra=None): recs.append((clause, bool(ok), dict(lit, **(extra or {})), msg))
     Xs, ys = X.copy(deep=True), y.copy(deep=True)
@@ -226,6 +232,13 @@ def one(arg):
         for lone, dt in (('qconst', 'float'), ('cconst', 'str')):
             r4 = outcome(lambda: make_selector(kind, [lone] if dt == 'float' else [], [lone] if dt == 'str' else [], 1, thresh_corr=tc).select(X, y))
             rec('select#post.feature_with_undefined_measure_is_left_out', r4[0] == 'ok' and lone not in list(r4[1]), 'a lone constant %s feature: %r' % (dt, r4[1] if r4[0] == 'ok' else r4[0]), dict(dtype=dt, feature=lone))
+        # a user-set thresh_mode: the mode share of a feature is taken over ALL rows (a mostly-missing feature whose observed values are concentrated is not 'constant')
+        if kind == 'ClassificationSelector':
+            r6 = outcome(lambda: make_selector(kind, quant, [], n_best, thresh_corr=tc, thresh_mode=0.9).select(X, y))
+            e6, a6, _ = oracle_select(X, y, quant, 'float', n_best, tc, kruskal_h, thresh_mode=0.9)
+            if r6[0] == 'ok' and not a6:
+                rec('select#post.best_ranked_mutually_unassociated_features', list(r6[1]) == e6, 'thresh_mode=0.9: returned %r, recomputation %r' % (list(r6[1]), e6), dict(dtype='float', thresh_mode=0.9))
+            elif r6[0] != 'ok': rec('select#raises.nothing_on_valid_input', False, 'thresh_mode=0.9: %s' % r6[0], dict(thresh_mode=0.9))
         # two user-supplied association measures (thresholds set so that both are evaluated): at most n_best PER measure, i.e. the union of the per-measure selections
         from AutoCarver.selectors.measures import R_measure, kruskal_measure
         def eta(x, yy):
